@@ -26,7 +26,7 @@ ASSUMPTIONS = [
     "merge_and_renumber: object numbers are compared as a relation (per input the old->new map must be a function and injective, maps of different inputs must have disjoint images), not as specific numbers",
     "drop_duplicates returns rows ordered by the duplicates column (documented by its sort); ties in the decision column admit any of the tied rows",
 ]
-BUDGET = {"quick": {"examples": 1100, "seconds": 85}, "thorough": {"examples": 5000, "seconds": 540}}
+BUDGET = {"quick": {"examples": 1800, "seconds": 85}, "thorough": {"examples": 5000, "seconds": 540}}
 
 C = oracle.MOTL_COLUMNS
 IX = {c: i for i, c in enumerate(C)}
